@@ -93,7 +93,9 @@ class Folder:
         if scope.cls is not None:
             # class-level names are visible unqualified only inside the class body itself
             if name in scope.cls.consts and getattr(scope, "in_class_body", False):
-                return ("val", self.fold(scope.cls.consts[name], Scope(scope.cls.mod, scope.cls)))
+                inner = Scope(scope.cls.mod, scope.cls)
+                inner.in_class_body = True
+                return ("val", self.fold(scope.cls.consts[name], inner))
         return self._lookup_module_name(name, scope.mod)
 
     def _lookup_module_name(self, name: str, mod: Mod, depth: int = 0):
